@@ -179,6 +179,7 @@ func (p *instancePool) warmUpGun(ctx context.Context) error {
 }
 
 type poolAsyncRunHandle struct {
+	poolCtx             context.Context
 	runCtx              context.Context
 	runCancel           context.CancelFunc
 	instanceStartCtx    context.Context
@@ -191,9 +192,9 @@ type poolAsyncRunHandle struct {
 	runRes chan instanceRunResult
 }
 
-func (p *instancePool) runAsync(runCtx context.Context) (*poolAsyncRunHandle, error) {
+func (p *instancePool) runAsync(poolCtx context.Context) (*poolAsyncRunHandle, error) {
 	// Canceled in case all instances finish, fail or run runCancel.
-	runCtx, runCancel := context.WithCancel(runCtx)
+	runCtx, runCancel := context.WithCancel(poolCtx)
 	_ = runCancel
 	// Canceled also on out of ammo, and finish of shared RPS schedule.
 	instanceStartCtx, instanceStartCancel := context.WithCancel(runCtx)
@@ -223,6 +224,7 @@ func (p *instancePool) runAsync(runCtx context.Context) (*poolAsyncRunHandle, er
 		startRes <- startResult{started, err}
 	}()
 	return &poolAsyncRunHandle{
+		poolCtx:             poolCtx,
 		runCtx:              runCtx,
 		runCancel:           runCancel,
 		instanceStartCtx:    instanceStartCtx,
@@ -320,7 +322,9 @@ func (ah *runAwaitHandle) awaitRun() {
 func (ah *runAwaitHandle) onErrAwaited(err error) {
 	select {
 	case ah.awaitErr <- err:
-	case <-ah.runCtx.Done():
+	// Pool Run is not receiving anymore only after its own context is done. runCtx is also
+	// canceled when all instances finish, and errors awaited after that must not be lost.
+	case <-ah.poolCtx.Done():
 		if err != ah.runCtx.Err() {
 			ah.log.Debug("Error suppressed after run cancel", zap.Error(err))
 		}
